@@ -27,13 +27,17 @@ package requests
 //@ end
 
 //@ func Parse
-//@ props C07
+//@ props C07 C08
 //@ requires r != nil
+//@ ensures[resp] finalErr == nil ==> resp != nil
+//@ ensures[single] finalErr == nil && !resp.IsBatchMode ==> len(resp.Requests) == 1
+//@ ensures[nonnil] finalErr == nil ==> forall(k, 0, len(resp.Requests), resp.Requests[k] != nil)
 //@ end
 
 //@ func Parse$1
-//@ props C07
+//@ props C07 C08
 //@ requires resp != nil ==> forall(k, 0, len(resp.Requests), resp.Requests[k] != nil)
+//@ modifies all(Request.Original)
 //@ end
 
 //@ extern net/http (*Request).FormFile
